@@ -45,7 +45,7 @@ Section Push.
   Qed.
 
   Lemma push_result : forall A B, linv A B ->
-    let B' := fst (transfer mkdig false A B) in
+    let B' := fst (transfer mkdig None A B) in
     linv A B' /\
     (forall ca, cur A = Some ca -> below (ptree A) (cur B) ca -> cur B' = Some ca).
   Proof.
